@@ -442,7 +442,10 @@ Definition getitem_model (v : variant) (debug : bool) (t : tensor) (raw_idx : li
       let sq_col := to_slice && match col with IInt _ => true | _ => false end in
       let row' := match row with IInt i => if to_slice then int_as_slice v i else row | _ => row end in
       let col' := match col with IInt i => if to_slice then int_as_slice v i else col | _ => col end in
-      let orig := batch ++ [row'; col'] in
+      (* Fixed, absorbed: int indices stay ints and are made non-negative:  idx + size if idx < 0 *)
+      let nonneg := fun (ns : list nat) (l : list item) =>
+        map (fun '(n, it) => match it with IInt i => IInt (if i <? 0 then i + Z.of_nat n else i) | _ => it end) (combine ns l) in
+      let orig := if absorbed && variant_eqb v Fixed then nonneg (tshape t) (batch ++ [row'; col']) else batch ++ [row'; col'] in
       let res :=
         if absorbed then
           match bcast_all (flat_map (fun it => match it with ITensor sh _ => [sh] | _ => [] end) orig) [] with
